@@ -10,6 +10,7 @@
 package main
 
 import (
+	"bytes"
 	"context"
 	"flag"
 	"fmt"
@@ -29,6 +30,7 @@ import (
 	"github.com/oasisprotocol/oasis-core/go/common/node"
 	abciAPI "github.com/oasisprotocol/oasis-core/go/consensus/cometbft/api"
 	roothashApp "github.com/oasisprotocol/oasis-core/go/consensus/cometbft/apps/roothash"
+	roothashState "github.com/oasisprotocol/oasis-core/go/consensus/cometbft/apps/roothash/state"
 	registry "github.com/oasisprotocol/oasis-core/go/registry/api"
 	roothash "github.com/oasisprotocol/oasis-core/go/roothash/api"
 	"github.com/oasisprotocol/oasis-core/go/roothash/api/block"
@@ -94,7 +96,20 @@ type impl struct {
 	lastBlock *block.Block
 	pool      *commitment.Pool
 	hashID    map[hash.Hash]int
+
+	// app mode: the pool lives (CBOR-serialized) in the roothash application state and commitments
+	// are admitted by the real executorCommit transaction handler.
+	app      bool
+	appState abciAPI.MockApplicationState
+
+	// model-free bookkeeping: what each scheduler signed as its own proposal and got accepted
+	signed  map[int]*commitment.ExecutorCommitment
+	specOff bool   // unverified raw add or round beyond the uint64 wrap bound: rule checks off
+	spec    string // first model-free rule violation observed on the implementation
 }
+
+// lastSpecFail is the model-free rule violation of the last runImpl (empty: none).
+var lastSpecFail string
 
 func (im *impl) hid(h hash.Hash) int {
 	if id, ok := im.hashID[h]; ok {
@@ -121,7 +136,123 @@ func newImpl(round uint64, members string) *impl {
 	}
 	im.lastBlock = block.NewGenesisBlock(rtID, 0)
 	im.lastBlock.Header.Round = round - 1 // wraps for round 0, as `child.Round+1` does
+	im.signed = map[int]*commitment.ExecutorCommitment{}
+	im.specOff = round > math.MaxUint64-uint64(len(im.committee.Members))
 	return im
+}
+
+// initApp puts the runtime (committee, last block, empty pool) into a fresh application state.
+func (im *impl) initApp() {
+	im.app = true
+	im.appState = abciAPI.NewMockApplicationState(&abciAPI.MockApplicationStateConfig{})
+	ctx := im.appState.NewContext(abciAPI.ContextEndBlock)
+	defer ctx.Close()
+	st := roothashState.NewMutableState(ctx.State())
+	if err := st.SetConsensusParameters(ctx, &roothash.ConsensusParameters{MaxRuntimeMessages: 32}); err != nil {
+		panic(err)
+	}
+	rtc := *rt
+	im.storeRt(&roothash.RuntimeState{
+		Runtime:        &rtc,
+		GenesisBlock:   im.lastBlock,
+		LastBlock:      im.lastBlock,
+		Committee:      im.committee,
+		CommitmentPool: im.pool,
+	})
+}
+
+func (im *impl) loadRt() *roothash.RuntimeState {
+	ctx := im.appState.NewContext(abciAPI.ContextEndBlock)
+	defer ctx.Close()
+	rtState, err := roothashState.NewMutableState(ctx.State()).RuntimeState(ctx, rtID)
+	if err != nil {
+		panic(err)
+	}
+	return rtState
+}
+
+func (im *impl) storeRt(rtState *roothash.RuntimeState) {
+	ctx := im.appState.NewContext(abciAPI.ContextEndBlock)
+	defer ctx.Close()
+	if err := roothashState.NewMutableState(ctx.State()).SetRuntimeState(ctx, rtState); err != nil {
+		panic(err)
+	}
+}
+
+// begin / end bracket an op in app mode: the pool is read from, and written back to, the state.
+func (im *impl) begin() {
+	if im.app {
+		im.pool = im.loadRt().CommitmentPool
+	}
+}
+
+func (im *impl) end() {
+	if im.app {
+		rtState := im.loadRt()
+		rtState.CommitmentPool = im.pool
+		im.storeRt(rtState)
+	}
+}
+
+// tx runs one executorCommit transaction with the given commitments through the real handler.
+func (im *impl) tx(ecs []*commitment.ExecutorCommitment) string {
+	cc := &roothash.ExecutorCommit{ID: rtID}
+	for _, ec := range ecs {
+		cc.Commits = append(cc.Commits, *ec)
+	}
+	ctx := im.appState.NewContext(abciAPI.ContextDeliverTx)
+	err := roothashApp.VerifExecutorCommit(ctx, im.appState, nil, cc)
+	ctx.Close()
+	im.pool = im.loadRt().CommitmentPool
+	return addErr(err)
+}
+
+// accepted records an accepted commitment (the scheduler's own proposal is what must be finalized).
+func (im *impl) accepted(ec *commitment.ExecutorCommitment) {
+	if ec.NodeID.Equal(ec.Header.SchedulerID) {
+		if _, ok := im.signed[pubIdx[ec.NodeID]]; !ok {
+			im.signed[pubIdx[ec.NodeID]] = ec
+		}
+	}
+}
+
+func (im *impl) specFail(msg string) {
+	if im.spec == "" && !im.specOff {
+		im.spec = msg
+	}
+}
+
+// chosenSigned returns what the scheduler at HighestRank signed as its own proposal.
+func (im *impl) chosenSigned() (*commitment.ExecutorCommitment, bool) {
+	n, ok := im.committee.Scheduler(im.round, im.pool.HighestRank)
+	if !ok {
+		return nil, false
+	}
+	ec, ok := im.signed[pubIdx[n.PublicKey]]
+	return ec, ok
+}
+
+// checkStored: the commitment the pool holds for HighestRank (the one a finalization would use) must
+// be byte-identical to what that scheduler itself signed. Model-free.
+func (im *impl) checkStored(where string) {
+	if im.specOff || im.spec != "" || os.Getenv("POOLDRV_NO_STORED_CHECK") != "" { // (env: testing the block check alone)
+		return
+	}
+	sc, ok := im.pool.SchedulerCommitments[im.pool.HighestRank]
+	if !ok {
+		return
+	}
+	want, ok := im.chosenSigned()
+	switch {
+	case !ok:
+		im.specFail(where + ": pool has an entry at HighestRank but that scheduler never committed; stored commitment is not the chosen scheduler's own")
+	case sc.Commitment == nil:
+		im.specFail(where + ": stored commitment at HighestRank is nil, not the chosen scheduler's own commitment")
+	case !bytes.Equal(cbor.Marshal(sc.Commitment), cbor.Marshal(want)):
+		im.specFail(fmt.Sprintf("%s: stored commitment at HighestRank (node %d for scheduler %d, vote %d) is not the chosen scheduler's own signed commitment (node %d, vote %d)",
+			where, pubIdx[sc.Commitment.NodeID], pubIdx[sc.Commitment.Header.SchedulerID], im.hid(sc.Commitment.ToVote()),
+			pubIdx[want.NodeID], im.hid(want.ToVote())))
+	}
 }
 
 // mkCommit builds (and signs, cached) the real commitment for the abstract description.
@@ -245,50 +376,78 @@ func (im *impl) state() string {
 // finalize calls the roothash application's round finalization on the real pool and classifies
 // what it did from the runtime state it leaves behind.
 func (im *impl) finalize(stragglers uint16, timeout, retry bool) string {
-	appState := abciAPI.NewMockApplicationState(&abciAPI.MockApplicationStateConfig{})
-	ctx := appState.NewContext(abciAPI.ContextEndBlock)
-	defer ctx.Close()
-	rtc := *rt
-	rtc.Executor.AllowedStragglers = stragglers
-	rtc.Executor.RoundTimeout = 10
+	var appState abciAPI.MockApplicationState
+	var rtState *roothash.RuntimeState
+	if im.app {
+		appState = im.appState
+		rtState = im.loadRt()
+		im.pool = rtState.CommitmentPool
+	} else {
+		appState = abciAPI.NewMockApplicationState(&abciAPI.MockApplicationStateConfig{})
+		rtc := *rt
+		rtState = &roothash.RuntimeState{
+			Runtime:        &rtc,
+			GenesisBlock:   im.lastBlock,
+			LastBlock:      im.lastBlock,
+			Committee:      im.committee,
+			CommitmentPool: im.pool,
+		}
+	}
+	rtState.Runtime.Executor.AllowedStragglers = stragglers
+	rtState.Runtime.Executor.RoundTimeout = 10
 	if retry {
-		rtc.Executor.RoundTimeout = 0 // re-armed timeout == current height: the retry runs with timeout
+		rtState.Runtime.Executor.RoundTimeout = 0 // re-armed timeout == current height: the retry runs with timeout
 	}
-	rtState := &roothash.RuntimeState{
-		Runtime:        &rtc,
-		GenesisBlock:   im.lastBlock,
-		LastBlock:      im.lastBlock,
-		Committee:      im.committee,
-		CommitmentPool: im.pool,
-	}
+	prevBlock := rtState.LastBlock
+	ctx := appState.NewContext(abciAPI.ContextEndBlock)
 	discBefore := im.pool.Discrepancy
-	// the commitment the pool would return, for naming the result of a Normal block
-	var own *commitment.ExecutorCommitment
+	im.checkStored("before finalization")
 	err := roothashApp.VerifTryFinalizeRound(ctx, appState, nil, rtState, timeout)
+	ctx.Close()
+	newBlock := rtState.LastBlock
+	poolReset := rtState.CommitmentPool != im.pool
+	if im.app {
+		// keep the round open so that the history can go on: same pool, same last block
+		rtState.LastBlock = prevBlock
+		rtState.CommitmentPool = im.pool
+		im.storeRt(rtState)
+	}
+	// the commitment the pool holds for the chosen scheduler, for naming the result of a Normal block
+	var own *commitment.ExecutorCommitment
 	if sc, ok := im.pool.SchedulerCommitments[im.pool.HighestRank]; ok {
 		own = sc.Commitment
 	}
 	switch {
 	case err != nil:
 		return "error " + strings.ReplaceAll(err.Error(), " ", "_")
-	case rtState.LastBlock != im.lastBlock:
-		blk := rtState.LastBlock
-		if blk.Header.Round != im.round || rtState.CommitmentPool == im.pool {
+	case newBlock != prevBlock:
+		blk := newBlock
+		if blk.Header.Round != im.round || !poolReset {
 			return "block-without-round-advance"
 		}
 		switch blk.Header.HeaderType {
 		case block.Normal:
+			// model-free: the block must carry the roots the chosen scheduler itself signed
+			if want, ok := im.chosenSigned(); ok && !im.specOff {
+				h := want.Header.Header
+				if h.StateRoot == nil || !blk.Header.StateRoot.Equal(h.StateRoot) || !blk.Header.IORoot.Equal(h.IORoot) ||
+					!blk.Header.MessagesHash.Equal(h.MessagesHash) || !blk.Header.InMessagesHash.Equal(h.InMessagesHash) {
+					im.specFail("Normal block header roots are not the chosen scheduler's own commitment header")
+				}
+			} else if !im.specOff {
+				im.specFail("Normal block although the chosen scheduler never committed: not the chosen scheduler's own commitment header")
+			}
 			if own == nil {
 				return "normal-without-commitment"
 			}
 			h := own.Header.Header
 			if h.StateRoot == nil || !blk.Header.StateRoot.Equal(h.StateRoot) || !blk.Header.IORoot.Equal(h.IORoot) ||
 				!blk.Header.MessagesHash.Equal(h.MessagesHash) || !blk.Header.InMessagesHash.Equal(h.InMessagesHash) {
-				return "normal-with-roots-not-of-chosen-commitment"
+				return "normal-with-roots-not-of-stored-commitment"
 			}
 			return fmt.Sprintf("normal %d %d", pubIdx[own.Header.SchedulerID], im.hid(own.ToVote()))
 		case block.RoundFailed:
-			if !blk.Header.StateRoot.Equal(&im.lastBlock.Header.StateRoot) {
+			if !blk.Header.StateRoot.Equal(&prevBlock.Header.StateRoot) {
 				return "round-failed-with-changed-state-root"
 			}
 			return "round-failed"
@@ -304,7 +463,13 @@ func (im *impl) finalize(stragglers uint16, timeout, retry bool) string {
 func runImpl(ops []string) (lines []string, panicked string) {
 	var im *impl
 	ctx := context.Background()
-	for _, op := range ops {
+	lastSpecFail = ""
+	defer func() {
+		if im != nil && im.spec != "" {
+			lastSpecFail = im.spec
+		}
+	}()
+	for i, op := range ops {
 		w := strings.Fields(op)
 		var line string
 		func() {
@@ -319,10 +484,42 @@ func runImpl(ops []string) (lines []string, panicked string) {
 					}
 				}
 			}()
+			if im != nil && im.spec == "" {
+				defer func() {
+					if im.spec != "" {
+						im.spec = fmt.Sprintf("at op %d `%s`: %s", i, op, im.spec)
+					}
+				}()
+			}
 			switch w[0] {
 			case "committee":
 				im = newImpl(u(w[1]), w[2])
 				line = op
+			case "appcommittee":
+				im = newImpl(u(w[1]), w[2])
+				im.initApp()
+				line = op
+			case "tx":
+				// one executorCommit transaction carrying several commitments (real handler)
+				var ecs []*commitment.ExecutorCommitment
+				var words []string
+				for _, cw := range w[1:] {
+					f := strings.Split(cw, ",")
+					ec := im.mkCommit(int(u(f[1])), int(u(f[2])), u(f[3]), int(u(f[4])), f[5] == "1", f[0] == "1")
+					ecs = append(ecs, ec)
+					words = append(words, f[0]+","+im.ecFields(ec, ","))
+				}
+				if !im.app {
+					panic("tx outside app mode")
+				}
+				res := im.tx(ecs)
+				if res == "ok" {
+					for _, ec := range ecs {
+						im.accepted(ec)
+					}
+					im.checkStored("after the transaction")
+				}
+				line = fmt.Sprintf("tx %s %s", res, strings.Join(words, " "))
 			case "commit":
 				// executorCommit (transactions.go:95-112): verify, then add.
 				sigOk := w[1] == "1"
@@ -335,20 +532,46 @@ func runImpl(ops []string) (lines []string, panicked string) {
 					res = addErr(commitment.VerifyExecutorCommitment(ctx, im.lastBlock, rt, im.committee.ValidFor, ec, nil, nil))
 					verCache[vkey] = res
 				}
-				if res == "ok" {
+				if im.app {
+					im.begin()
+					before := im.state()
+					res = im.tx([]*commitment.ExecutorCommitment{ec})
+					if res != "ok" && im.state() != before {
+						res += " MUTATED"
+					}
+				} else if res == "ok" {
 					before := im.state()
 					res = addErr(im.pool.AddVerifiedExecutorCommitment(im.committee, ec))
 					if res != "ok" && im.state() != before {
 						res += " MUTATED" // a rejected commitment must leave the pool as it was
 					}
 				}
+				if res == "ok" {
+					im.accepted(ec)
+					im.checkStored("after the commitment")
+				}
 				line = fmt.Sprintf("commit %s %s %s", w[1], im.ecFields(ec, " "), res)
 			case "rawadd":
 				ec := im.mkCommit(int(u(w[1])), int(u(w[2])), u(w[3]), int(u(w[4])), w[5] == "1", true)
+				if commitment.VerifyExecutorCommitment(ctx, im.lastBlock, rt, im.committee.ValidFor, ec, nil, nil) != nil {
+					im.specOff = true // outside the verified histories
+				}
+				im.begin()
 				res := addErr(im.pool.AddVerifiedExecutorCommitment(im.committee, ec))
+				im.end()
+				if res == "ok" {
+					im.accepted(ec)
+				}
 				line = fmt.Sprintf("rawadd %s %s", im.ecFields(ec, " "), res)
 			case "process":
+				im.begin()
 				sc, err := im.pool.ProcessCommitments(im.committee, uint16(u(w[1])), w[2] == "1")
+				im.end()
+				if err == nil && sc != nil {
+					if want, ok := im.chosenSigned(); !ok || sc.Commitment == nil || !bytes.Equal(cbor.Marshal(sc.Commitment), cbor.Marshal(want)) {
+						im.specFail("ProcessCommitments returned a commitment that is not the chosen scheduler's own signed commitment")
+					}
+				}
 				line = fmt.Sprintf("%s %s %s", op, b01(im.pool.Discrepancy), procErr(err))
 				if err == nil {
 					if sc == nil || sc.Commitment == nil {
@@ -363,6 +586,7 @@ func runImpl(ops []string) (lines []string, panicked string) {
 				s, timeout, retry := uint16(u(w[1])), w[2] == "1", w[3] == "1"
 				line = fmt.Sprintf("%s %s", op, im.finalize(s, timeout, retry))
 			case "state":
+				im.begin()
 				line = im.state()
 			case "rank":
 				r, ok := im.committee.SchedulerRank(u(w[1]), signers[u(w[2])].Public())
@@ -396,6 +620,9 @@ func runImpl(ops []string) (lines []string, panicked string) {
 // check runs implementation and model on the ops; returns "" or what went wrong.
 func check(ops []string) (string, []string) {
 	lines, _ := runImpl(ops)
+	if lastSpecFail != "" {
+		return "SPECFAIL(implementation, model-free) " + lastSpecFail, lines
+	}
 	ans, err := hlib.RunModel("pool", lines)
 	if err != nil {
 		return "model-error: " + err.Error(), lines
@@ -412,6 +639,8 @@ func signature_(detail string) string {
 	switch {
 	case strings.Contains(detail, "SPECFAIL"):
 		switch {
+		case strings.Contains(detail, "not the chosen scheduler's own"):
+			return "finalized-header-not-schedulers-commitment"
 		case strings.Contains(detail, "MayFinalize"):
 			return "spec-mayfinalize"
 		case strings.Contains(detail, "non-member"):
@@ -573,7 +802,15 @@ func pick(r *hlib.Rng, l []int) int {
 func genCase(r *hlib.Rng, nops int, res *hlib.Result) []string {
 	sh := genShape(r, res)
 	round := genRound(r, res)
-	ops := []string{fmt.Sprintf("committee %d %s", round, sh.members)}
+	// a third of the cases keep the pool in the application state and admit commitments through the
+	// real executorCommit handler, several per transaction
+	appMode := r.Chance(1, 3)
+	head := "committee"
+	if appMode {
+		head = "appcommittee"
+		res.Count("case:app-mode")
+	}
+	ops := []string{fmt.Sprintf("%s %d %s", head, round, sh.members)}
 	stragglers := r.Intn(3)
 	if r.Chance(1, 3) {
 		stragglers = 0
@@ -582,6 +819,17 @@ func genCase(r *hlib.Rng, nops int, res *hlib.Result) []string {
 	mainSched := pick(r, sh.workers)
 	guided := r.Chance(2, 3)
 	pAgree := 60 + r.Intn(40)
+	var batch []string        // pending commitments of the next transaction
+	sent := map[[2]int]bool{} // (node, scheduler) pairs already submitted
+	batchMax := 2 + r.Intn(4)
+	flushTx := func() {
+		if len(batch) > 0 {
+			ops = append(ops, "tx "+strings.Join(batch, " "))
+			res.Count(fmt.Sprintf("op:tx(%d commitments)", len(batch)))
+			batch = nil
+			batchMax = 2 + r.Intn(5)
+		}
+	}
 	emitCommit := func(nodeN, sched int) {
 		kind := 0
 		fail := false
@@ -597,20 +845,32 @@ func genCase(r *hlib.Rng, nops int, res *hlib.Result) []string {
 			rd = round + 1
 		}
 		sigOk := !r.Chance(1, 40)
-		if r.Chance(1, 12) {
+		pair := [2]int{nodeN, sched}
+		switch {
+		case r.Chance(1, 12):
+			flushTx()
 			ops = append(ops, fmt.Sprintf("rawadd %d %d %d %d %s", nodeN, sched, rd, kind, b01(fail)))
 			res.Count("op:rawadd")
-		} else {
+		case appMode && (!sent[pair] || r.Chance(1, 6)):
+			// joins the pending transaction (a repeated pair mostly goes alone: it fails its transaction)
+			batch = append(batch, fmt.Sprintf("%s,%d,%d,%d,%d,%s", b01(sigOk), nodeN, sched, rd, kind, b01(fail)))
+			if len(batch) >= batchMax {
+				flushTx()
+			}
+		default:
+			flushTx()
 			ops = append(ops, fmt.Sprintf("commit %s %d %d %d %d %s", b01(sigOk), nodeN, sched, rd, kind, b01(fail)))
 			res.Count("op:commit")
 		}
+		sent[pair] = true
 	}
 	emitProcess := func(timeout bool) {
+		flushTx()
 		s := stragglers
 		if r.Chance(1, 30) {
 			s = r.Intn(4)
 		}
-		if r.Chance(1, 6) && len(sh.workers) > 0 {
+		if (r.Chance(1, 6) || (appMode && r.Chance(1, 2))) && len(sh.workers) > 0 {
 			ops = append(ops, fmt.Sprintf("finalize %d %s %s", s, b01(timeout), b01(r.Chance(1, 3))))
 			res.Count("op:finalize")
 		} else {
@@ -622,7 +882,12 @@ func genCase(r *hlib.Rng, nops int, res *hlib.Result) []string {
 		// scheduler first (mostly), then members in random order, then timeout, then backups
 		res.Count("case:guided")
 		if r.Chance(4, 5) {
-			ops = append(ops, fmt.Sprintf("commit 1 %d %d %d 0 0", mainSched, mainSched, round))
+			if appMode {
+				batch = append(batch, fmt.Sprintf("1,%d,%d,%d,0,0", mainSched, mainSched, round))
+			} else {
+				ops = append(ops, fmt.Sprintf("commit 1 %d %d %d 0 0", mainSched, mainSched, round))
+			}
+			sent[[2]int{mainSched, mainSched}] = true
 		}
 		order := append([]int(nil), sh.all...)
 		order = append(order, sh.all...) // duplicates
@@ -643,10 +908,11 @@ func genCase(r *hlib.Rng, nops int, res *hlib.Result) []string {
 				nd = r.Intn(universe)
 			}
 			emitCommit(nd, sched)
-			if r.Chance(1, 3) {
+			if (!appMode && r.Chance(1, 3)) || (appMode && r.Chance(1, 7)) {
 				emitProcess(r.Chance(1, 5))
 			}
 			if r.Chance(1, 10) {
+				flushTx()
 				ops = append(ops, "state")
 			}
 		}
@@ -684,6 +950,7 @@ func genCase(r *hlib.Rng, nops int, res *hlib.Result) []string {
 			case k < 85:
 				emitProcess(r.Chance(1, 3))
 			case k < 92:
+				flushTx()
 				ops = append(ops, "state")
 				res.Count("op:state")
 			case k < 95:
@@ -698,6 +965,7 @@ func genCase(r *hlib.Rng, nops int, res *hlib.Result) []string {
 			}
 		}
 	}
+	flushTx()
 	ops = append(ops, "state")
 	return ops
 }
@@ -712,6 +980,25 @@ func classify(lines []string, res *hlib.Result) (nontrivial bool) {
 				res.Count("add:rejected-but-mutated(wrap)")
 			} else {
 				res.Count("add:" + w[len(w)-1])
+			}
+		case "tx":
+			res.Count("tx:" + w[1])
+			if w[1] == "ok" && len(w) > 3 {
+				res.Count("tx:ok-with-several-commitments")
+				// position of a scheduler's own proposal inside an accepted transaction
+				for i, cw := range w[2:] {
+					f := strings.Split(cw, ",")
+					if f[1] == f[2] {
+						switch {
+						case i == len(w)-3:
+							res.Count("tx:scheduler-proposal-last")
+						case i == 0:
+							res.Count("tx:scheduler-proposal-first-others-after")
+						default:
+							res.Count("tx:scheduler-proposal-in-the-middle")
+						}
+					}
+				}
 			}
 		case "process":
 			out := w[4]
@@ -764,6 +1051,9 @@ func exhaustive(depth int, limit int, res *hlib.Result, fail func(ops []string, 
 		var start []int
 		for _, ops := range batch {
 			lines, _ := runImpl(ops)
+			if lastSpecFail != "" {
+				fail(ops, "SPECFAIL(implementation, model-free) "+lastSpecFail)
+			}
 			start = append(start, len(all))
 			all = append(all, lines...)
 			res.Ops += len(lines)
@@ -867,6 +1157,9 @@ func (b *batcher) flush() {
 	var start []int
 	for _, ops := range b.batch {
 		lines, _ := runImpl(ops)
+		if lastSpecFail != "" {
+			b.fail(ops, "SPECFAIL(implementation, model-free) "+lastSpecFail)
+		}
 		start = append(start, len(all))
 		all = append(all, lines...)
 		b.res.Ops += len(lines)
@@ -895,7 +1188,7 @@ func (b *batcher) flush() {
 // (never commits / commits before the timeout / commits after it; agreeing, dissenting or failure)
 // and every arrival order of the commitments before the timeout, with a processing call after every
 // commitment: all vote multisets in all orders (model validation + rule evaluation).
-func multisets(maxNodes int, res *hlib.Result, fail func(ops []string, d string)) {
+func multisets(maxNodes, maxAppNodes int, res *hlib.Result, fail func(ops []string, d string)) {
 	cacheVer = true
 	type scope struct {
 		members string
@@ -941,6 +1234,31 @@ func multisets(maxNodes int, res *hlib.Result, fail func(ops []string, d string)
 					}
 					ops = append(ops, fmt.Sprintf("process %d 1", stragglers), "state")
 					b.add(ops)
+					// the same multiset through the application: the commitments before the timeout in
+					// one executorCommit transaction (in this order), those after it in another one,
+					// finalization by the real tryFinalizeRoundInsideTx
+					if k > maxAppNodes {
+						return
+					}
+					aops := []string{"app" + head}
+					var t1, t2 []string
+					for _, i := range order {
+						t1 = append(t1, fmt.Sprintf("1,%d,%d,%d,%s", sc.nodes[i], sched, round, strings.ReplaceAll(behaviours[opt[i]-1], " ", ",")))
+					}
+					for i := 0; i < k; i++ {
+						if opt[i] >= 4 {
+							t2 = append(t2, fmt.Sprintf("1,%d,%d,%d,%s", sc.nodes[i], sched, round, strings.ReplaceAll(behaviours[opt[i]-4], " ", ",")))
+						}
+					}
+					if len(t1) > 0 {
+						aops = append(aops, "tx "+strings.Join(t1, " "))
+					}
+					aops = append(aops, fmt.Sprintf("finalize %d 0 0", stragglers), fmt.Sprintf("finalize %d 1 0", stragglers))
+					if len(t2) > 0 {
+						aops = append(aops, "tx "+strings.Join(t2, " "))
+					}
+					aops = append(aops, fmt.Sprintf("finalize %d 0 0", stragglers), fmt.Sprintf("finalize %d 1 1", stragglers), "state")
+					b.add(aops)
 				}
 				emit = func(phase1 []int, used []bool, order []int) {
 					if len(order) == len(phase1) {
@@ -1011,12 +1329,13 @@ func main() {
 	corpus := flag.String("corpus", "", "corpus dir, run first")
 	exDepth := flag.Int("exhaustive", 0, "depth of the small-scope exhaustive enumeration (0: off)")
 	exLimit := flag.Int("exhaustive-limit", 300000, "max sequences per scope (depth is reduced to fit)")
+	msApp := flag.Int("multiset-app", 4, "largest committee (nodes) for which the multisets also go through the application handlers")
 	msNodes := flag.Int("multiset", 0, "enumerate all vote multisets and orders for committees of up to this many nodes (0: off)")
 	flag.Parse()
 	setup()
 
 	res := hlib.NewResult("pooldrv", *seed)
-	res.Rule = "histories of commit (VerifyExecutorCommitment+AddVerifiedExecutorCommitment) / rawadd / process / finalize / state ops on the real commitment.Pool over committees of 0-5 workers and 0-5 backup workers drawn from 9 Ed25519 nodes (overlapping roles, 1/20 malformed member lists), rounds small or within 3 of 2^64, stragglers 0-3, agreeing/dissenting/failure/duplicate/non-member/bad-signature/wrong-round commitments for schedulers of every rank; non-trivial: some processing call answered other than still-waiting/no-scheduler-commitment; distinct by op list"
+	res.Rule = "histories of commit (VerifyExecutorCommitment+AddVerifiedExecutorCommitment) / tx (real executorCommit handler, 1-6 commitments per transaction, pool kept in the application state; a third of the cases) / rawadd / process / finalize (real tryFinalizeRoundInsideTx) / state ops on the real commitment.Pool over committees of 0-5 workers and 0-5 backup workers drawn from 9 Ed25519 nodes (overlapping roles, 1/20 malformed member lists), rounds small or within 3 of 2^64, stragglers 0-3, agreeing/dissenting/failure/duplicate/non-member/bad-signature/wrong-round commitments for schedulers of every rank; non-trivial: some processing call answered other than still-waiting/no-scheduler-commitment; distinct by op list"
 
 	runOne := func(ops []string, caseSeed uint64, minimize bool) {
 		d, lines := check(ops)
@@ -1111,7 +1430,7 @@ func main() {
 	}
 	if *msNodes > 0 && len(res.Failures) == 0 {
 		res.Exhaustive = true
-		multisets(*msNodes, res, func(ops []string, d string) {
+		multisets(*msNodes, *msApp, res, func(ops []string, d string) {
 			kind := "divergence"
 			if strings.Contains(d, "SPECFAIL") {
 				kind = "spec"
@@ -1120,7 +1439,7 @@ func main() {
 			}
 			res.Fail(hlib.Failure{Kind: kind, Detail: d, Case: ops, Sig: signature_(d)})
 		})
-		res.Explanation += "; all member behaviours (never / before / after the timeout x agree / dissent / failure) in all arrival orders for the listed small committees, every scheduler, stragglers 0..2"
+		res.Explanation += "; all member behaviours (never / before / after the timeout x agree / dissent / failure) in all arrival orders for the listed small committees, every scheduler, stragglers 0..2, directly on the pool and (small committees) as executorCommit transactions + tryFinalizeRoundInsideTx"
 	}
 	res.Write(*out)
 }
